@@ -489,6 +489,76 @@ def r204(facts, res):
     res.floor(R, 'iterations over hash containers keyed by StorageT values', n, 6)
 
 
+PASS_THROUGH = ('cast', 'unwrap', 'expect', 'from', 'into', 'as_', 'try_from', 'try_into', 'clone', 'unwrap_or_default')
+
+
+def from_max(b, op, depth=8):
+    """the operand's value is StorageT::max_value(), possibly cast / unwrapped / cached in a local"""
+    l = op_local(op)
+    if l is None or depth == 0:
+        return False
+    ds = b.defs().get(l, [])
+    if len(ds) != 1:
+        return False
+    _bb, kind, d = ds[0]
+    if kind == 'call':
+        nm = cname(d)
+        if nm == 'max_value':
+            return True
+        if nm in ('sub', 'add', 'saturating_sub', 'wrapping_sub', 'checked_sub', 'min'):       # max_value() - 1 and the like
+            return any(from_max(b, a, depth - 1) for a in d['args'])
+        return nm in PASS_THROUGH and bool(d['args']) and from_max(b, d['args'][0], depth - 1)
+    if 'bin' in d and d['bin'] in ('Sub', 'Add', 'SubWithOverflow', 'AddWithOverflow'):
+        return from_max(b, d['a'], depth - 1) or from_max(b, d['b'], depth - 1)
+    if 'use' in d:
+        return from_max(b, d['use'], depth - 1)
+    if 'cast' in d:
+        return from_max(b, d['a'], depth - 1)
+    if 'ref' in d and not d['ref']['p']:
+        return from_max(b, {'copy': d['ref']}, depth - 1)
+    return False
+
+
+def width_comparison(facts, b, on, depth=4):
+    """the switch operand is (the negation of) a comparison with max_value(), or the answer of any()/all() whose closure makes one
+    against a captured max_value()"""
+    l = op_local(on)
+    if l is None or depth == 0:
+        return False
+    ds = b.defs().get(l, [])
+    if len(ds) != 1:
+        return False
+    _bb, kind, d = ds[0]
+    if kind == 'stmt':
+        if 'bin' in d and d['bin'] in ('Lt', 'Le', 'Gt', 'Ge'):
+            return from_max(b, d['a']) or from_max(b, d['b'])
+        if 'un' in d and d['un'] == 'Not':
+            return width_comparison(facts, b, d['a'], depth - 1)
+        if 'use' in d:
+            return width_comparison(facts, b, d['use'], depth - 1)
+        return False
+    nm = cname(d)
+    if nm in ('lt', 'le', 'gt', 'ge') and len(d['args']) == 2:
+        return from_max(b, d['args'][0]) or from_max(b, d['args'][1])
+    if nm in ('any', 'all') and len(d['args']) == 2:
+        cl = op_local(d['args'][1])
+        for _b2, k2, rv in b.defs().get(cl, ()):
+            if k2 == 'stmt' and 'agg' in rv and isinstance(rv['agg'], dict) and 'closure' in rv['agg']:
+                cb = facts.bodies.get(rv['agg']['closure'])
+                caps = rv['ops']
+                if cb is None:
+                    continue
+                for _b3, _i, st in cb.stmts():
+                    r2 = st.get('rv') or {}
+                    if st['k'] == 'assign' and 'bin' in r2 and r2['bin'] in ('Lt', 'Le', 'Gt', 'Ge'):
+                        for o in (r2['a'], r2['b']):
+                            rr, projs, _via = cb.op_root(o)
+                            fs = [q['f'] for pl in projs for q in pl if isinstance(q, dict) and 'f' in q]
+                            if rr == 1 and fs and fs[0] < len(caps) and from_max(b, caps[fs[0]]):
+                                return True
+    return False
+
+
 def r205(facts, res):
     """"... or the narrower width is refused at construction with the documented 'not big enough' panic": every diverging exit that
     a comparison with StorageT::max_value() decides (a width refusal) carries a message containing "not big enough" - a bare
@@ -502,12 +572,13 @@ def r205(facts, res):
         if not mv:
             continue
         seen_sw = set()
-        for bb, t in mv:
-            region = b.reachable([bb], stop=lambda x: b.term(x)['k'] == 'switch')
-            for s in [x for x in region if b.term(x)['k'] == 'switch']:
+        # switches decided by a comparison one of whose operands derives from StorageT::max_value() - next to the call, or through a
+        # local that caches it, or inside the closure of an any()/all() over the things measured
+        cmp_switches = [x for x in sorted(b.reachable()) if b.term(x)['k'] == 'switch' and width_comparison(facts, b, b.term(x)['on'])]
+        for bb, t in mv[:1]:
+            for s in cmp_switches:
                 if s in seen_sw:
                     continue
-                # the switch must be on a comparison fed by the max_value result: its block lies between the call and the switch only
                 seen_sw.add(s)
                 for s2 in b.succs(s):
                     tail = b.reachable([s2], stop=lambda z: b.term(z)['k'] in ('switch',))
